@@ -60,6 +60,9 @@ INFIX_OPERATORS = frozenset(
 )
 
 
+# pest reads repetition counts and stack-slice bounds into 32-bit integers.
+MAX_NUMBER = 0xFFFFFFFF
+
 class Parser:
     """pest grammar parser."""
 
@@ -285,9 +288,12 @@ class Parser:
     def _int(self, token: Token) -> int:
         """The value of a NUMBER or INTEGER token."""
         try:
-            return int(token.value)
+            value = int(token.value)
         except ValueError as err:  # more digits than int() converts
             raise PestGrammarSyntaxError("number is too large", token=token) from err
+        if abs(value) > MAX_NUMBER:
+            raise PestGrammarSyntaxError("number is too large", token=token)
+        return value
 
     def parse_repeat_expression(self, expr: Expression) -> Expression:
         token = self.next()
